@@ -143,8 +143,9 @@ def build_zone(ex, st, N, T, pfx="z", hints=True):
         X(32, 8, sub(add(u, off_of(prev_ty)), 1)); X(40, 8, REST)            # prev_civil_sec
         prev_ty = ty
     # WF: what TimeZoneInfo::Load guarantees (asserted there by the C12 harness)
-    # zic-shaped premise: recorded transition times lie within +-2^61 of the epoch (zic emits -2^59 .. 2^37); files with
-    # times outside that range are C12's business (Load accepts them and later differences can overflow: see DESIGN, findings)
+    # zic-shaped premise: recorded transition times lie within +-2^61 of the epoch (zic emits -2^59 .. 2^37).  Files with
+    # times outside that range are C12's business: Load accepts them and the "nearby transition" differences in
+    # LocalTime/MakeTime can then overflow (C12 continues into the queries on the loaded state to show exactly that)
     wf = [lt(z.unix[0], 0), ge(z.unix[N - 1], 0)] + [and_(le(-TLIM, u), le(u, TLIM)) for u in z.unix]
     for i in range(1, N):
         wf.append(lt(z.unix[i - 1], z.unix[i]))
